@@ -475,3 +475,65 @@ def c03_view_rules(rep, ap, rng, tier, pid):
                 terms.append('(eqs (scatter_add %s %s %d) %s)' % (idx_term, flat(yb[d, p]), n, flat(xb[d, p])))
                 metas.append(dict(op='view:' + kind, shape=list(shp), index=desc, D=D, d=d, p=p))
     finish(rep, pid, 'v', terms, metas, 'the adjoint of the parent after the reverse sweep differs from the scatter of ybar along the model index list (GatherRules.v)')
+
+
+def c03_broadcast_rules(rep, ap, rng, tier, pid):
+    """reverse sweep through broadcasting arithmetic recorded by the tracer (x + y, x - y, x * constant array, constant array * x, with every
+    right-aligned broadcasting pattern incl. rank extension and 0-d operands): the operand adjoints must be the scatter-add of the output
+    adjoint along the broadcasting index list of Bcast.v (BcastSpec.v: in range, hence the adjoint), exactly; the result shape must be
+    the model's bshape and compatible with both operands"""
+    U = ap.UTPM
+    pairs = [((3, 1), (1, 2)), ((2,), (3, 2)), ((3, 2), (2,)), ((2, 1, 2), (3, 1)), ((1,), (2, 2)), ((2, 2), (2, 2)), ((), (2, 3)),
+             ((2, 3), ()), ((1, 1), (3,)), ((2, 1), (1,)), ((1, 3, 1), (2, 1, 2))]
+    terms, metas = [], []
+    global IMPORTS
+    for it in range(len(pairs) if tier == 'quick' else 6 * len(pairs)):
+        s1, s2 = pairs[it % len(pairs)]
+        D = 1 + it % 3; P = 1 + (it // 3) % 2
+        o = numpy.broadcast_shapes(s1, s2)
+        x = idata(rng, D, P, *s1); y = idata(rng, D, P, *s2)
+        c = idata(rng, *s2)
+        for opname in ('add', 'sub', 'mul_const', 'const_mul'):
+            try:
+                cg = ap.CGraph(); fx = ap.Function(U(x.copy())); fy = ap.Function(U(y.copy()))
+                if opname == 'add':
+                    fz = fx + fy
+                elif opname == 'sub':
+                    fz = fx - fy
+                elif opname == 'mul_const':
+                    fz = fx * c
+                else:
+                    if c.ndim == 0:
+                        fz = float(c) * fx
+                    else:
+                        fz = c * fx
+                        if not isinstance(fz, ap.Function):
+                            continue      # ndarray.__mul__ took over element-wise (object array): not a traced node
+                cg.trace_off(); cg.independentFunctionList = [fx, fy]; cg.dependentFunctionList = [fz]
+                if tuple(fz.x.data.shape[2:]) != tuple(o):
+                    rep.violation('reduce:broadcast:shape', '%s of shapes %r and %r has shape %r, NumPy broadcasts to %r' % (opname, s1, s2, fz.x.data.shape[2:], o),
+                                  dict(kind='reduce-model', op=opname, shapes=[s1, s2]))
+                    continue
+                zb = idata(rng, D, P, *o)
+                cg.pullback([U(zb.copy())])
+                xb = numpy.asarray(fx.xbar.data); yb = numpy.asarray(fy.xbar.data)
+            except Exception as e:
+                rep.violation('reduce:exception', 'reverse sweep through broadcasting %s raises %s' % (opname, repr(e)[:300]),
+                              dict(kind='reduce-model', op=opname, shapes=[s1, s2], exc=repr(e)[:1500]))
+                continue
+            head = '(bshape %s %s == Some %s) && bcompat %s %s && bcompat %s %s' % (lib.natseq(s1), lib.natseq(s2), lib.natseq(o), lib.natseq(s1), lib.natseq(o), lib.natseq(s2), lib.natseq(o))
+            for d in range(D):
+                for p in range(P):
+                    zx = zb[d, p] * (numpy.broadcast_to(c, o) if opname in ('mul_const', 'const_mul') else 1.0)
+                    t = '(%s && eqs (scatter_add (bcast_idx %s %s) %s %d) %s' % (head, lib.natseq(s1), lib.natseq(o), flat(zx), int(numpy.prod(s1)), flat(xb[d, p]))
+                    if opname in ('add', 'sub'):
+                        zy = zb[d, p] * (1.0 if opname == 'add' else -1.0)
+                        t += ' && eqs (scatter_add (bcast_idx %s %s) %s %d) %s' % (lib.natseq(s2), lib.natseq(o), flat(zy), int(numpy.prod(s2)), flat(yb[d, p]))
+                    terms.append(t + ')')
+                    metas.append(dict(op='broadcast:' + opname, shapes=[list(s1), list(s2)], D=D, d=d, p=p))
+    imp = IMPORTS
+    IMPORTS = IMPORTS + ' Bcast'
+    try:
+        finish(rep, pid, 'b', terms, metas, 'the operand adjoint after the reverse sweep differs from the scatter-add of the output adjoint along the broadcasting index list (Bcast.v)')
+    finally:
+        IMPORTS = imp
